@@ -210,9 +210,9 @@ impl<'a> Ctx<'a> {
 }
 
 /// `Check`: a fresh `Archive::open` of the file, then one Read per universe name and a List.
-fn checkpoint(cx: &Ctx, case: &str, path: &Path, uni: &Uni, fin: bool) {
+fn checkpoint(cx: &Ctx, case: &str, path: &Path, uni: &Uni, fin: bool, ck: usize) {
     let p = path.to_path_buf();
-    let (res, arch) = cx.op(json!({"ev":"Check","case":case,"fin":fin}), move || {
+    let (res, arch) = cx.op(json!({"ev":"Check","case":case,"fin":fin,"ck":ck}), move || {
         let r = Archive::open(&p);
         (classify(&r), r.ok())
     });
@@ -228,7 +228,7 @@ fn checkpoint(cx: &Ctx, case: &str, path: &Path, uni: &Uni, fin: bool) {
             Outcome::Panic(_) => ("panic".to_string(), -1, "none".to_string()),
             Outcome::Hang => unreachable!(),
         };
-        cx.trace.ev(json!({"ev":"Read","case":case,"n":a,"res":res,"len":len,"tok":t,"fin":fin}));
+        cx.trace.ev(json!({"ev":"Read","case":case,"n":a,"res":res,"len":len,"tok":t,"fin":fin,"ck":ck}));
     }
     let r = guarded(|| arch.list());
     let (res, names) = match r {
@@ -240,7 +240,7 @@ fn checkpoint(cx: &Ctx, case: &str, path: &Path, uni: &Uni, fin: bool) {
         Outcome::Done(Err(e)) => (format!("err:{}", variant_name(&e)), vec![]),
         _ => ("panic".to_string(), vec![]),
     };
-    cx.trace.ev(json!({"ev":"List","case":case,"res":res,"names":names,"fin":fin}));
+    cx.trace.ev(json!({"ev":"List","case":case,"res":res,"names":names,"fin":fin,"ck":ck}));
 }
 
 fn run_history(cx: &Ctx, c: &Value, dir: &Path, seed: u64) {
@@ -271,6 +271,7 @@ fn run_history(cx: &Ctx, c: &Value, dir: &Path, seed: u64) {
     };
     // initial map: tokens of what a fresh open reads (recorded before the history)
     let mut initial = Map::new();
+    let mut toks = Map::new();
     {
         let mut a = Archive::open(&path).unwrap_or_else(|e| tool_error(&format!("open start: {e:?}")));
         for (ab, cn) in uni.abs.iter().zip(uni.conc.iter()) {
@@ -283,6 +284,9 @@ fn run_history(cx: &Ctx, c: &Value, dir: &Path, seed: u64) {
                 // the builder's own output is not readable: C01 territory, not a C06 observation
                 tool_error(&format!("case {case}: starting archive does not read back {ab}"));
             }
+            if t != "none" {
+                toks.insert(format!("i:{ab}"), json!(t));
+            }
             initial.insert(ab.clone(), json!(t));
         }
     }
@@ -293,7 +297,7 @@ fn run_history(cx: &Ctx, c: &Value, dir: &Path, seed: u64) {
     cx.trace.ev(json!({"ev":"Reset","case":case,"cls":gs(c,"cls"),"ver":gi(c,"ver"),"lf":lf,"at":at,
         "slack":st.slack_bytes,"hsize":st.hsize,"nblocks0":st.nblocks0,"nspecial":st.nspecial - 1,"tail":st.tail,
         "universe":uni.abs,"concrete":uni.conc,"homes":homes,"initial":Value::Object(initial),
-        "devs":devs.join("+"),"pred":c.get("pred").cloned().unwrap_or(json!({"kind":"none"})),"nops":ga(c,"ops").len()}));
+        "devs":devs.join("+"),"preds":c.get("preds").cloned().unwrap_or(json!([])),"toks":Value::Object(toks),"nops":ga(c,"ops").len()}));
 
     let mut m: Option<MutableArchive> = None;
     let open = |cx: &Ctx, m: &mut Option<MutableArchive>| -> bool {
@@ -306,6 +310,7 @@ fn run_history(cx: &Ctx, c: &Value, dir: &Path, seed: u64) {
         res == "ok" && m.is_some()
     };
     let mut alive = open(cx, &mut m);
+    let mut ck = 0usize;
     let ops = ga(c, "ops");
     for (oi, o) in ops.iter().enumerate() {
         if !alive {
@@ -332,7 +337,7 @@ fn run_history(cx: &Ctx, c: &Value, dir: &Path, seed: u64) {
                     opts = opts.fix_key();
                 }
                 let cn = uni.conc_of(n).to_string();
-                let ev = json!({"ev":"Add","case":case,"oi":oi + 1,"n":n,"tok":tok(&data),"len":data.len(),"rep":rep,"comp":comp,"enc":enc});
+                let ev = json!({"ev":"Add","case":case,"okey":format!("o{}", oi + 1),"n":n,"tok":tok(&data),"len":data.len(),"rep":rep,"comp":comp,"enc":enc});
                 let ma = m.as_mut().unwrap();
                 cx.op(ev, || (classify(&ma.add_file_data(&data, &cn, opts)), ()));
             }
@@ -377,7 +382,8 @@ fn run_history(cx: &Ctx, c: &Value, dir: &Path, seed: u64) {
                     drop(ma);
                     ("ok".to_string(), ())
                 });
-                checkpoint(cx, &case, &path, &uni, false);
+                ck += 1;
+                checkpoint(cx, &case, &path, &uni, false, ck);
                 alive = open(cx, &mut m);
             }
             other => tool_error(&format!("unknown op {other}")),
@@ -389,7 +395,7 @@ fn run_history(cx: &Ctx, c: &Value, dir: &Path, seed: u64) {
             ("ok".to_string(), ())
         });
     }
-    checkpoint(cx, &case, &path, &uni, true);
+    checkpoint(cx, &case, &path, &uni, true, ck + 1);
     let _ = std::fs::remove_file(&path);
 }
 
